@@ -14,7 +14,7 @@ pub fn parse(fields: &Fields, base_data_size: BaseDataSize) -> Result<Vec<FieldD
     let mut field_definitions = Vec::with_capacity(fields.len());
 
     for field in fields {
-        match parse_field(base_data_size.internal, field) {
+        match parse_field(base_data_size.exposed, field) {
             Ok(def) => field_definitions.push(def),
             Err(ts) => return Err(ts),
         }
@@ -346,6 +346,21 @@ fn parse_field(base_data_size: usize, field: &Field) -> Result<FieldDefinition> 
         ));
     }
 
+    let highest_bit_index_in_ranges = ranges.iter().map(|range| range.end).max().unwrap_or(0);
+
+    // Verify bounds for non-arrays
+    if indexed_count.is_none() && highest_bit_index_in_ranges > base_data_size {
+        return Err(Error::new_spanned(
+            field.attrs.first(),
+            format!(
+                "bitfield!: Field {} uses bits up to {}, but the bitfield only has {} bits",
+                field_name,
+                highest_bit_index_in_ranges - 1,
+                base_data_size
+            ),
+        ));
+    }
+
     // Verify bounds for arrays
     if let Some(indexed_count) = indexed_count {
         if ranges.len() == 1 {
@@ -377,7 +392,6 @@ fn parse_field(base_data_size: usize, field: &Field) -> Result<FieldDefinition> 
             }
         }
 
-        let highest_bit_index_in_ranges = ranges.iter().map(|range| range.end).max().unwrap_or(0);
         let number_of_bits_indexed =
             (indexed_count - 1) * indexed_stride.unwrap() + highest_bit_index_in_ranges;
         if number_of_bits_indexed > base_data_size {
